@@ -230,3 +230,83 @@ def rule_boundcmp(ctx):
     else:
         ctx.holds("BOUNDCMP", "BOUNDCMP:NCcoordck:negative", f.where(), "a negative coordinate always ends in `return FALSE`", nontrivial=True)
     return 2
+
+
+def _last_iter_flags(ast):
+    """(variable, assignment node) for every truth-valued local that a break-free loop overwrites unconditionally on each
+    iteration without reading it (neither in the body nor in the loop's own condition): only the last iteration counts"""
+    from .codec import ast_walk
+    loops = []
+
+    def vis(n, st):
+        if n[0] in ("for", "while"):
+            loops.append(n)
+        return True
+    ast_walk(ast, vis)
+    out = []
+    for lp in loops:
+        body = lp[4] if lp[0] == "for" else lp[2]
+        stmts = body[1] if body[0] == "block" else [body]
+        leaves = [False]
+
+        def vb(n, st):
+            if n[0] in ("break", "goto") or (n[0] == "s" and kind(n[1]) == "ret"):
+                leaves[0] = True
+            return True
+        ast_walk(body, vb)
+        if leaves[0]:
+            continue
+        for s in stmts:
+            if not (s[0] == "s" and kind(s[1]) == "asg" and s[1][1] == "=" and kind(strip(s[1][2])) == "var"):
+                continue
+            v = strip(s[1][2])[1]
+            e = strip(s[1][3])
+            if not (kind(e) == "bin" and e[1] in ("==", "!=", "<", ">", "<=", ">=", "&&", "||")):
+                continue
+            if any(x[0] == "var" and x[1] == v for x in walk(e, True)):
+                continue
+            reads = [0]
+
+            def vr(n, st):
+                if n[0] == "s":
+                    reads[0] += sum(1 for x in walk(n[1], True) if x[0] == "var" and x[1] == v)
+                elif n[0] in ("if", "while", "switch"):
+                    reads[0] += sum(1 for x in walk(n[1], True) if x[0] == "var" and x[1] == v)
+                elif n[0] == "for":
+                    for part in n[1:4]:
+                        if part:
+                            reads[0] += sum(1 for x in walk(part, True) if x[0] == "var" and x[1] == v)
+                return True
+            ast_walk(body, vr)
+            own = 0
+            for part in (lp[1:4] if lp[0] == "for" else [lp[1]]):
+                if part:
+                    own += sum(1 for x in walk(part, True) if x[0] == "var" and x[1] == v)
+            if reads[0] == 1 and own == 0:
+                out.append((v, s[1]))
+    return out
+
+
+def rule_last_iteration_flag(ctx):
+    """LASTITER: a flag that must hold for *every* element (all strides are 1, all dimensions are in range ...) is
+    accumulated over a loop; assigning it unconditionally from the current element alone makes only the last iteration
+    count.  Instances = loops of the library and tools that assign a truth value to a local; the expected number of
+    matches is zero, so the matcher is exercised on a built-in positive example on every run."""
+    # built-in positive example: for (i = 0; i < n; i++) ok = (a[i] == 1);
+    i_ = ["var", "i", "l", "int"]
+    ex = ["block", [["for", ["asg", "=", i_, ["int", 0], 1, "int"], ["bin", "<", i_, ["var", "n", "l", "int"], "int"], ["incdec", "++", False, i_, 1, "int"],
+                     ["s", ["asg", "=", ["var", "ok", "l", "int"], ["bin", "==", ["idx", ["var", "a", "l", "int *"], i_, "int"], ["int", 1], "int"], 2, "int"], 2, 1, []], 1, 1, []]], 1, 1, []]
+    if [v for v, _ in _last_iter_flags(ex)] != ["ok"]:
+        ctx.unrecognised("LASTITER", "LASTITER:selftest", "-", "the matcher no longer recognises its built-in positive example")
+    n = 0
+    for f in ctx.prog.funcs:
+        ast = f.raw.get("ast")
+        if not ast:
+            continue
+        n += 1
+        for v, a in _last_iter_flags(ast):
+            ctx.violated("LASTITER", "LASTITER:%s:%s" % (f.name, v), f.where(a[4]), "`%s` is overwritten on every iteration from the current element only (%s): after the loop it reflects the last element, "
+                         "not all of them" % (v, render(a)[:70]))
+    ctx.holds("LASTITER", "LASTITER:all", "-", "%d functions scanned: no loop overwrites a truth-valued flag from the current element alone" % n, nontrivial=False)
+    ctx.floor("LASTITER", 1000, n, "(functions scanned)")
+    return n
